@@ -425,6 +425,13 @@ def gen_hostile(rng, knobs=None):
     prog.append(['pump'])
     prog.append(['complete', 1, 'resp'])
     prog.append(['probe', src, spec(rng), spec(rng)])
+    if rng.random() < k.get('p_victim_probe', 0.8):
+        # ... in both directions: the endpoint that received the hostile input makes requests of its own afterwards
+        prog.append(['pump'])
+        prog.append(['probe', dst, spec(rng, big=False), spec(rng, big=False)])
+        if rng.random() < 0.3:
+            prog.append(['advance', 1100])
+            prog.append(['probe', dst, spec(rng, big=False), spec(rng, big=False)])
     prog.append(['finish'])
     return opts, prog
 
